@@ -347,6 +347,8 @@ def unpack(format: str, buffer: bytes) -> tuple[Any, ...]:
         # Depends on PIC. If PIC has only S9VP, then it's "ZONED DECIMAL": a number.
         # Otherwise, it's actually text
         if representation.zoned_decimal:
+            if any((b & 0x0F) > 9 for b in buffer):
+                raise ValueError(f"invalid zoned decimal digit in {buffer!r}")
             text = "".join(str(b & 0x0F) for b in buffer)
             sign_half = (buffer[-1] & 0xF0) >> 4
             sign = -1 if (sign_half == 0x0B or sign_half == 0x0D) else +1
@@ -375,6 +377,8 @@ def unpack(format: str, buffer: bytes) -> tuple[Any, ...]:
             half_bytes.append((b & 0xF0) >> 4)
             half_bytes.append((b & 0x0F))
         *digits, sign_half = half_bytes
+        if any(d > 9 for d in digits):
+            raise ValueError(f"invalid packed decimal digit in {buffer!r}")
         # get sign and base numeric value
         sign = -1 if (sign_half == 0x0B or sign_half == 0x0D) else +1
         base = Decimal("".join(str(d) for d in digits))
